@@ -50,6 +50,7 @@ from numpy import (
 from sympy import (
     Basic,
     Expr,
+    Symbol,
     latex,
     limit,
     sympify,
@@ -395,11 +396,13 @@ class Element(ABC):
         key: str
         value: float
         for key, value in values.items():
-            repl: Union[str, float]
+            repl: Union[str, float, Symbol]
 
             if not substitute:
                 if self._label != "":
-                    repl = f"{key}_{self._label}"
+                    # A label does not have to be a valid identifier (or
+                    # expression), so it is not parsed.
+                    repl = Symbol(f"{key}_{self._label}")
                 elif identifier >= 0:
                     repl = f"{key}_{identifier}"
                 else:
@@ -1783,10 +1786,12 @@ class Container(Element):
         key: str
         value: float
         for key, value in values.items():
-            repl: Union[str, float, Expr]
+            repl: Union[str, float, Expr, Symbol]
             if not substitute:
                 if self._label != "":
-                    repl = f"{key}_{self._label}"
+                    # A label does not have to be a valid identifier (or
+                    # expression), so it is not parsed.
+                    repl = Symbol(f"{key}_{self._label}")
                 elif identifier >= 0:
                     repl = f"{key}_{identifier}"
                 else:
